@@ -59,7 +59,7 @@ Name = "root"
 Password = "operpw"
 `
 	vCfgOther = `SessionExpiration = "10m"
-PostMessageCooloff = "1s"
+PostMessageCooloff = "1.00000025s"
 [IRC]
 [[IRC.Operators]]
 Name = "admin"
@@ -177,7 +177,7 @@ func vClientLines(now int64, full bool) []VLine {
 	// the time safeguard tolerates)
 	ls = append(ls, VLine{Data: "PRIVMSG #c :from the past", Dt: -1500 * time.Millisecond, Tag: "time"}, VLine{Data: "NICK past", Dt: -1500 * time.Millisecond, Tag: "time"})
 	// address deviations
-	ls = append(ls, VLine{Data: "PING x", Addr: "10.9.9.9", Tag: "addr"}, VLine{Data: "JOIN #c", Addr: "10.0.0.77", Tag: "addr"}, VLine{Data: "PING x", Addr: "-", Tag: "addr"}, VLine{Data: "NICK q", Addr: "10.9.9.9", Tag: "addr"})
+	ls = append(ls, VLine{Data: "PING x", Addr: "10.9.9.9", Tag: "addr"}, VLine{Data: "JOIN #c", Addr: "10.0.0.77", Tag: "addr"}, VLine{Data: "JOIN #c", Addr: "10.0.0.8", Tag: "addr"}, VLine{Data: "PING x", Addr: "-", Tag: "addr"}, VLine{Data: "NICK q", Addr: "10.9.9.9", Tag: "addr"})
 	if full {
 		// generic shapes for every command of the live table
 		atoms := []string{"a", "b", "#c", "#d", "x", ":", ":hi there"}
@@ -249,7 +249,7 @@ func vServiceLines(pseudo []string) []VLine {
 		":"+srv+" SVSJOIN a #c", ":"+srv+" SVSJOIN a #d", ":"+srv+" SVSJOIN b #c", ":"+srv+" SVSJOIN a #new", ":"+srv+" SVSJOIN nobody #c", ":"+srv+" SVSJOIN a c", ":"+srv+" SVSJOIN c #c",
 		":"+srv+" SVSPART a #c", ":"+srv+" SVSPART b #c", ":"+srv+" SVSPART b #d", ":"+srv+" SVSPART a #none", ":"+srv+" SVSPART nobody #c", ":"+srv+" SVSPART c #c",
 		"SVSMODE a +r", "SVSMODE a -r", "SVSMODE a +d 5", "SVSMODE a +d", "SVSMODE nobody +r", "SVSMODE a r", "SVSMODE a +x", "SVSMODE b +rd 7",
-		"SVSHOLD held 60 :held by services", "SVSHOLD held", "SVSHOLD a 5 :x", "SVSHOLD held abc :bad duration", "SVSHOLD other 0 :zero", "SVSHOLD [x 60 :case",
+		"SVSHOLD held 60 :held by services", "SVSHOLD held", "SVSHOLD a 5 :x", "SVSHOLD held abc :bad duration", "SVSHOLD other 0 :zero", "SVSHOLD held 9223372036 :the longest duration that parses", "SVSHOLD other 0.000000001 :one nanosecond", "SVSHOLD [x 60 :case",
 		"QUIT :link closing", "QUIT")
 	for _, p := range append([]string{srv}, pseudo...) {
 		pre := ":" + p + " "
